@@ -279,7 +279,16 @@ double _vnacal_new_solve_calc_pvalue(vnacal_new_solve_state_t *vnssp,
      * If the result is small, we can reject the null hypothesis that
      * the data are consistent with the model.
      */
-    assert(!isnan(chisq));
+    /*
+     * A solution so degenerate that its V matrices are not finite
+     * (error terms all zero after an iteration that was stopped early
+     * by a very loose tolerance) makes chisq NaN.  Such a solution is
+     * no evidence that the data fit the model: report it as
+     * inconsistent instead of asserting.
+     */
+    if (isnan(chisq)) {
+	return 0.0;
+    }
     assert(chisq >= 0.0);
     return chisq_pvalue(df, chisq);
 }
